@@ -83,6 +83,7 @@ Proof.
   - apply okp_tl'; assumption.
   - apply okp_norm; assumption.
   - destruct (dcb _ d); reflexivity.
+  - destruct (dcb _ d); reflexivity.
 Qed.
 
 Lemma okp_step s e s' t : step s e = Some s' -> okp (thr s t) = true ->
@@ -128,6 +129,7 @@ Proof.
   all: simpl; try (apply nor_norm); try assumption; try reflexivity.
   all: try (apply nor_app; [apply nor_cbs|assumption]).
   - apply nor_tl; assumption.
+  - destruct (dcb _ d); reflexivity.
   - destruct (dcb _ d); reflexivity.
 Qed.
 
